@@ -1127,4 +1127,1101 @@ theorem fresh_progress {env : Env} {conn : Conn} {o : Obj} (ord : List Str) (ha 
     ∃ f, fresh env conn o ord = .ok f :=
   sync_progress (c := empty env conn o.name) ord (empty_inv env conn o.name) rfl ha hs hg
 
+/-- whatever state a successful `Sync` started from, a fresh `ClusterInfo` given only that object is created
+    successfully (whatever the map iteration order) and observes the same -/
+theorem fresh_of_sync_ok {env : Env} {c c' : CI} {o : Obj} {ord : List Str} (hI : Inv env c)
+    (h : sync env c o ord = .ok c') (hn : c.cluster = env.lower o.name) :
+    ∀ ord', ∃ f, fresh env c.conn o ord' = .ok f ∧ observe env f = observe env c' := by
+  obtain ⟨_, _, _, hobs, happ, hsafe, hg⟩ := sync_ok_spec hI h hn
+  intro ord'
+  obtain ⟨f, hf⟩ := fresh_progress ord' happ hsafe hg
+  refine ⟨f, hf, ?_⟩
+  obtain ⟨_, _, _, hobs', _⟩ := sync_ok_spec (empty_inv env c.conn o.name) hf rfl
+  rw [hobs, hobs']; rfl
+
+/-! ## the controller: manager keys -/
+
+/-- key `k` of the manager map points to `ClusterInfo` number `id`, which is `ci` -/
+def resolves (st : Ctl) (k : Str) : Option (Nat × CI) :=
+  match alookup k st.mgr with
+  | none => none
+  | some id =>
+    match st.heap[id]? with
+    | none => none
+    | some ci => some (id, ci)
+
+theorem get_eq (env : Env) (st : Ctl) (name : Str) : st.get env name = resolves st (env.lower name) := rfl
+
+theorem resolves_some {st : Ctl} {k : Str} {id : Nat} {ci : CI} :
+    resolves st k = some (id, ci) ↔ alookup k st.mgr = some id ∧ st.heap[id]? = some ci := by
+  unfold resolves
+  constructor
+  · intro h
+    split at h
+    · cases h
+    · rename_i id' h1
+      split at h
+      · cases h
+      · rename_i ci' h2
+        injection h with h; injection h with ha hb; subst ha; subst hb
+        exact ⟨h1, h2⟩
+  · intro h
+    obtain ⟨h1, h2⟩ := h
+    rw [h1]; simp only; rw [h2]
+
+/-- key `k` points to a `ClusterInfo` of cluster `X` -/
+def Owned (st : Ctl) (X : Str) (k : Str) : Prop := ∃ id c, resolves st k = some (id, c) ∧ c.cluster = X
+
+theorem delOwned_frame (env : Env) (X : Str) (s : Ctl) (o : Str) :
+    (delOwned env X s o).heap = s.heap ∧ (delOwned env X s o).lister = s.lister ∧
+    (delOwned env X s o).queue = s.queue := by
+  unfold delOwned
+  cases h : s.get env o with
+  | none => exact ⟨rfl, rfl, rfl⟩
+  | some p =>
+    obtain ⟨id, c⟩ := p
+    simp only
+    by_cases hc : c.cluster = X
+    · rw [if_pos hc]; exact ⟨rfl, rfl, rfl⟩
+    · rw [if_neg hc]; exact ⟨rfl, rfl, rfl⟩
+
+theorem delOwned_mgr (env : Env) (X : Str) (s : Ctl) (o : Str) (j : Str) :
+    (env.lower o = j ∧ Owned s X j → alookup j (delOwned env X s o).mgr = none) ∧
+    (¬ (env.lower o = j ∧ Owned s X j) → alookup j (delOwned env X s o).mgr = alookup j s.mgr) := by
+  unfold delOwned
+  rw [get_eq]
+  cases h : resolves s (env.lower o) with
+  | none =>
+    refine ⟨fun hx => ?_, fun _ => rfl⟩
+    obtain ⟨hj, id, c, hr, _⟩ := hx
+    rw [hj] at h; rw [h] at hr; cases hr
+  | some p =>
+    obtain ⟨id, c⟩ := p
+    simp only
+    by_cases hc : c.cluster = X
+    · rw [if_pos hc]
+      simp only [Ctl.delete, alookup_aerase]
+      constructor
+      · intro hx; rw [if_pos hx.1]
+      · intro hx
+        by_cases hj : env.lower o = j
+        · exfalso; apply hx; refine ⟨hj, id, c, ?_, hc⟩; rw [← hj]; exact h
+        · rw [if_neg hj]
+    · rw [if_neg hc]
+      refine ⟨fun hx => ?_, fun _ => rfl⟩
+      obtain ⟨hj, id', c', hr, hc'⟩ := hx
+      rw [hj] at h; rw [h] at hr; injection hr with hr; injection hr with _ hr; subst hr
+      exact absurd hc' hc
+
+theorem Owned_congr {s s' : Ctl} {X j : Str} (hh : s'.heap = s.heap) (hm : alookup j s'.mgr = alookup j s.mgr) :
+    Owned s' X j ↔ Owned s X j := by
+  unfold Owned resolves
+  rw [hh, hm]
+
+/-- `names.foldl (delOwned …)`: exactly the keys of the listed names that point to a `ClusterInfo` of cluster `X`
+    are removed -/
+theorem delFold_spec (env : Env) (X : Str) : ∀ (L : List Str) (s : Ctl),
+    (L.foldl (delOwned env X) s).heap = s.heap ∧ (L.foldl (delOwned env X) s).lister = s.lister ∧
+    (L.foldl (delOwned env X) s).queue = s.queue ∧
+    ∀ j, (((∃ o ∈ L, env.lower o = j) ∧ Owned s X j) → alookup j (L.foldl (delOwned env X) s).mgr = none) ∧
+         (¬ ((∃ o ∈ L, env.lower o = j) ∧ Owned s X j) → alookup j (L.foldl (delOwned env X) s).mgr = alookup j s.mgr) := by
+  intro L
+  induction L with
+  | nil =>
+    intro s
+    refine ⟨rfl, rfl, rfl, fun j => ⟨fun h => ?_, fun _ => rfl⟩⟩
+    obtain ⟨⟨o, ho, _⟩, _⟩ := h; cases ho
+  | cons o r ih =>
+    intro s
+    simp only [List.foldl]
+    obtain ⟨f1, f2, f3⟩ := delOwned_frame env X s o
+    obtain ⟨i1, i2, i3, i4⟩ := ih (delOwned env X s o)
+    refine ⟨i1.trans f1, i2.trans f2, i3.trans f3, fun j => ?_⟩
+    obtain ⟨d1, d2⟩ := delOwned_mgr env X s o j
+    obtain ⟨e1, e2⟩ := i4 j
+    constructor
+    · intro hx
+      obtain ⟨⟨o', ho', hlo'⟩, hown⟩ := hx
+      by_cases hj : env.lower o = j
+      · -- removed at this step, stays removed
+        have hnone := d1 ⟨hj, hown⟩
+        have hnot : ¬ ((∃ o ∈ r, env.lower o = j) ∧ Owned (delOwned env X s o) X j) := by
+          intro hc
+          obtain ⟨_, id, c, hr, _⟩ := hc
+          rw [resolves_some] at hr
+          rw [hnone] at hr; cases hr.1
+        rw [e2 hnot]; exact hnone
+      · have hsame := d2 (fun hc => hj hc.1)
+        have hor : o' ∈ r := by
+          cases ho' with
+          | head => exact absurd hlo' hj
+          | tail _ h' => exact h'
+        exact e1 ⟨⟨o', hor, hlo'⟩, (Owned_congr f1 hsame).2 hown⟩
+    · intro hx
+      by_cases hown : Owned s X j
+      · have hno : ¬ ∃ o' ∈ o :: r, env.lower o' = j := fun hc => hx ⟨hc, hown⟩
+        have hj : ¬ env.lower o = j := fun hc => hno ⟨o, List.mem_cons_self, hc⟩
+        have hsame := d2 (fun hc => hj hc.1)
+        have hnot : ¬ ((∃ o ∈ r, env.lower o = j) ∧ Owned (delOwned env X s o) X j) := by
+          intro hc
+          obtain ⟨⟨o', ho', hlo'⟩, _⟩ := hc
+          exact hno ⟨o', List.mem_cons_of_mem _ ho', hlo'⟩
+        rw [e2 hnot]; exact hsame
+      · have hsame := d2 (fun hc => hown hc.2)
+        have hnot : ¬ ((∃ o ∈ r, env.lower o = j) ∧ Owned (delOwned env X s o) X j) := by
+          intro hc
+          exact hown ((Owned_congr f1 hsame).1 hc.2)
+        rw [e2 hnot]; exact hsame
+
+theorem condDel_eq_filter (env : Env) (X : Str) (new : List Str) : ∀ (old : List Str) (s : Ctl),
+    old.foldl (fun s o => if memb o new then s else delOwned env X s o) s =
+    (old.filter fun o => !memb o new).foldl (delOwned env X) s := by
+  intro old
+  induction old with
+  | nil => intro s; rfl
+  | cons o r ih =>
+    intro s
+    simp only [List.foldl, List.filter_cons]
+    by_cases hm : memb o new = true
+    · simp only [hm, if_true, Bool.not_true, Bool.false_eq_true, if_false]; exact ih s
+    · have hm' : memb o new = false := by simpa using hm
+      simp only [hm', Bool.false_eq_true, if_false, Bool.not_false, if_true, List.foldl]; exact ih _
+
+/-- the adding loop of `AddOrUpdateForServerNames` -/
+theorem addFold_spec (env : Env) (old : List Str) (id : Nat) : ∀ (L : List Str) (s : Ctl),
+    let s' := L.foldl (fun s n => if memb n old then s else s.addWithKey env n id) s
+    s'.heap = s.heap ∧ s'.lister = s.lister ∧ s'.queue = s.queue ∧
+    ∀ j, ((∃ n ∈ L, memb n old = false ∧ env.lower n = j) → alookup j s'.mgr = some id) ∧
+         (¬ (∃ n ∈ L, memb n old = false ∧ env.lower n = j) → alookup j s'.mgr = alookup j s.mgr) := by
+  intro L
+  induction L with
+  | nil =>
+    intro s
+    refine ⟨rfl, rfl, rfl, fun j => ⟨fun h => ?_, fun _ => rfl⟩⟩
+    obtain ⟨o, ho, _⟩ := h; cases ho
+  | cons n r ih =>
+    intro s
+    simp only [List.foldl]
+    by_cases hm : memb n old = true
+    · rw [if_pos hm]
+      obtain ⟨i1, i2, i3, i4⟩ := ih s
+      refine ⟨i1, i2, i3, fun j => ?_⟩
+      obtain ⟨e1, e2⟩ := i4 j
+      constructor
+      · intro hx
+        obtain ⟨n', hn', hmo, hl⟩ := hx
+        cases hn' with
+        | head => rw [hm] at hmo; cases hmo
+        | tail _ h' => exact e1 ⟨n', h', hmo, hl⟩
+      · intro hx
+        exact e2 (fun hc => by obtain ⟨n', hn', hmo, hl⟩ := hc; exact hx ⟨n', List.mem_cons_of_mem _ hn', hmo, hl⟩)
+    · have hm' : memb n old = false := by simpa using hm
+      rw [if_neg hm]
+      obtain ⟨i1, i2, i3, i4⟩ := ih (s.addWithKey env n id)
+      refine ⟨i1, i2, i3, fun j => ?_⟩
+      obtain ⟨e1, e2⟩ := i4 j
+      constructor
+      · intro hx
+        by_cases hr : ∃ n' ∈ r, memb n' old = false ∧ env.lower n' = j
+        · exact e1 hr
+        · rw [e2 hr]
+          obtain ⟨n', hn', hmo, hl⟩ := hx
+          cases hn' with
+          | head => simp only [Ctl.addWithKey, alookup_astore, hl, if_true]
+          | tail _ h' => exact absurd ⟨n', h', hmo, hl⟩ hr
+      · intro hx
+        have hr : ¬ ∃ n' ∈ r, memb n' old = false ∧ env.lower n' = j :=
+          fun hc => by obtain ⟨n', hn', hmo, hl⟩ := hc; exact hx ⟨n', List.mem_cons_of_mem _ hn', hmo, hl⟩
+        rw [e2 hr]
+        have hj : ¬ env.lower n = j := fun hc => hx ⟨n, List.mem_cons_self, hm', hc⟩
+        simp only [Ctl.addWithKey, alookup_astore, hj, if_false]
+
+/-! ## the controller: invariant -/
+
+/-- `strings.ToLower` is idempotent -/
+def LowerIdem (env : Env) : Prop := ∀ s, env.lower (env.lower s) = env.lower s
+
+theorem names_fixed {env : Env} (hl : LowerIdem env) {ci : CI} (hc : env.lower ci.cluster = ci.cluster) :
+    ∀ s ∈ loadServerNames env ci, env.lower s = s := by
+  intro s hs
+  unfold loadServerNames at hs
+  cases hs with
+  | head => exact hc
+  | tail _ h =>
+    obtain ⟨a, _, ha⟩ := List.mem_map.1 h
+    rw [← ha]; exact hl a
+
+theorem cluster_mem_names (env : Env) (ci : CI) : ci.cluster ∈ loadServerNames env ci := List.mem_cons_self
+
+/-- the controller's invariant: every `ClusterInfo` is consistent; every key of the manager map is one of the server
+    names of the `ClusterInfo` it points to; and when any key points to a `ClusterInfo`, all of its server names do -/
+structure CInv (env : Env) (conn : Conn) (st : Ctl) : Prop where
+  heapOK : ∀ (id : Nat) (ci : CI), st.heap[id]? = some ci → Inv env ci ∧ env.lower ci.cluster = ci.cluster ∧ ci.conn = conn
+  keysSub : ∀ (k : Str) (id : Nat), alookup k st.mgr = some id → ∃ ci, st.heap[id]? = some ci ∧ k ∈ loadServerNames env ci
+  namesKeys : ∀ (k : Str) (id : Nat) (ci : CI), alookup k st.mgr = some id → st.heap[id]? = some ci →
+    ∀ s ∈ loadServerNames env ci, alookup s st.mgr = some id
+  listerOK : ∀ n o, alookup n st.lister = some o → o.name = n
+
+theorem CInv_init (env : Env) (conn : Conn) : CInv env conn Ctl.init := by
+  refine ⟨?_, ?_, ?_, ?_⟩
+  · intro id ci h; simp [Ctl.init] at h
+  · intro k id h; simp [Ctl.init, alookup] at h
+  · intro k id ci h; simp [Ctl.init, alookup] at h
+  · intro n o h; simp [Ctl.init, alookup] at h
+
+/-- two keys that point to `ClusterInfo`s of the same cluster point to the same `ClusterInfo` -/
+theorem CInv.unique {env : Env} {conn : Conn} {st : Ctl} (hI : CInv env conn st) {k1 k2 : Str} {id1 id2 : Nat} {c1 c2 : CI}
+    (h1 : resolves st k1 = some (id1, c1)) (h2 : resolves st k2 = some (id2, c2)) (hc : c1.cluster = c2.cluster) :
+    id1 = id2 := by
+  rw [resolves_some] at h1 h2
+  have a := hI.namesKeys k1 id1 c1 h1.1 h1.2 c1.cluster (cluster_mem_names env c1)
+  have b := hI.namesKeys k2 id2 c2 h2.1 h2.2 c2.cluster (cluster_mem_names env c2)
+  rw [hc] at a; rw [a] at b; injection b
+
+/-- what passing `checkServerNameConflict` means (when the name lists differ) -/
+theorem conflict_false {env : Env} {st : Ctl} {X : Str} {old new : List Str} (hne : old ≠ new)
+    (h : checkServerNameConflict env st X old new = false) :
+    ∀ n ∈ new, ∀ id c, resolves st (env.lower n) = some (id, c) → c.cluster = X := by
+  unfold checkServerNameConflict at h
+  rw [if_neg hne] at h
+  intro n hn id c hr
+  by_cases ha : (new.any fun n => st.ownedByOther env X n) = true
+  · rw [if_pos ha] at h; cases h
+  · have ha' : (new.any fun n => st.ownedByOther env X n) = false := by simpa using ha
+    rw [List.any_eq_false] at ha'
+    have := ha' n hn
+    unfold Ctl.ownedByOther at this
+    rw [get_eq, hr] at this
+    simpa using this
+
+/-- a key that survives / is created by a loop keeps resolving as long as map entry and heap cell agree -/
+theorem resolves_congr {s s' : Ctl} {j : Str} (hm : alookup j s'.mgr = alookup j s.mgr)
+    (hh : ∀ id, alookup j s.mgr = some id → s'.heap[id]? = s.heap[id]?) : resolves s' j = resolves s j := by
+  unfold resolves
+  rw [hm]
+  cases h : alookup j s.mgr with
+  | none => rfl
+  | some id => simp only; rw [hh id h]
+
+/-- keys that point to other clusters' `ClusterInfo`s are untouched by an event of cluster `X` … -/
+def F1 (st st' : Ctl) (X : Str) : Prop :=
+  ∀ (k : Str) (id : Nat) (ci : CI), resolves st k = some (id, ci) → ci.cluster ≠ X → resolves st' k = some (id, ci)
+
+/-- … and no key starts pointing to another cluster's `ClusterInfo` -/
+def F2 (st st' : Ctl) (X : Str) : Prop :=
+  ∀ (k : Str) (id : Nat) (ci : CI), resolves st' k = some (id, ci) → ci.cluster ≠ X → resolves st k = some (id, ci)
+
+/-- `AddOrUpdateForServerNames` after `ClusterInfo` number `id` (of cluster `X`) was created or synced to `info'`:
+    its keys become exactly its new server names, nothing else moves -/
+theorem rekey_spec {env : Env} {conn : Conn} (hl : LowerIdem env) {st0 st1 st' : Ctl} {id : Nat} {info' : CI} {X : Str}
+    {old : List Str} (hI : CInv env conn st0)
+    (hmgr : st1.mgr = st0.mgr) (hlis : st1.lister = st0.lister) (hq : st1.queue = st0.queue)
+    (hheap_id : st1.heap[id]? = some info')
+    (hheap_other : ∀ id', id' ≠ id → st1.heap[id']? = st0.heap[id']?)
+    (hX : env.lower X = X) (hcl : info'.cluster = X) (hinv : Inv env info') (hconn : info'.conn = conn)
+    (hold : ∀ k, alookup k st0.mgr = some id ↔ k ∈ old)
+    (hV : ∀ ci, st0.heap[id]? = some ci → ci.cluster = X)
+    (hU : ∀ k id' c, resolves st0 k = some (id', c) → c.cluster = X → id' = id)
+    (hne : old ≠ loadServerNames env info')
+    (h : addOrUpdateForServerNames env st1 old id info' = some st') :
+    CInv env conn st' ∧ st'.lister = st0.lister ∧ st'.queue = st0.queue ∧ F1 st0 st' X ∧ F2 st0 st' X ∧
+    resolves st' X = some (id, info') := by
+  unfold addOrUpdateForServerNames at h
+  simp only at h
+  rw [if_neg hne] at h
+  by_cases hcf : checkServerNameConflict env st1 info'.cluster old (loadServerNames env info') = true
+  · rw [if_pos hcf] at h; cases h
+  · have hcf' : checkServerNameConflict env st1 info'.cluster old (loadServerNames env info') = false := by simpa using hcf
+    rw [if_neg hcf] at h
+    injection h with h
+    rw [condDel_eq_filter, hcl] at h
+    rw [hcl] at hcf'
+    generalize hnew : loadServerNames env info' = new at h hcf' hne
+    -- the two loops
+    obtain ⟨dh, dl, dq, dm⟩ := delFold_spec env X (old.filter fun o => !memb o new) st1
+    generalize hsD : (old.filter fun o => !memb o new).foldl (delOwned env X) st1 = sD at h dh dl dq dm
+    have af := addFold_spec env old id new sD
+    simp only at af
+    rw [h] at af
+    obtain ⟨ah, al, aq, am⟩ := af
+    have hheap' : st'.heap = st1.heap := ah.trans dh
+    -- names are lower-case fixed points
+    have hfixC : env.lower info'.cluster = info'.cluster := by rw [hcl]; exact hX
+    have hfn : ∀ s ∈ new, env.lower s = s := by rw [← hnew]; exact names_fixed hl hfixC
+    have hfo : ∀ k ∈ old, env.lower k = k := by
+      intro k hk
+      have hk' := (hold k).2 hk
+      obtain ⟨ci, hci, hmem⟩ := hI.keysSub k id hk'
+      exact names_fixed hl (hI.heapOK id ci hci).2.1 k hmem
+    have hXnew : X ∈ new := by rw [← hnew, ← hcl]; exact cluster_mem_names env info'
+    -- the old keys of `id` all point to a ClusterInfo of cluster X
+    have hown : ∀ k ∈ old, Owned st1 X k := by
+      intro k hk
+      refine ⟨id, info', ?_, hcl⟩
+      rw [resolves_some, hmgr]
+      exact ⟨(hold k).2 hk, hheap_id⟩
+    -- nothing of another cluster sits on a new name
+    have hnc : ∀ n ∈ new, ∀ id' c, resolves st1 n = some (id', c) → c.cluster = X := by
+      intro n hn id' c hr
+      have := conflict_false hne hcf' n hn id' c
+      rw [hfn n hn] at this
+      exact this hr
+    -- the new key map
+    have KC : ∀ j, (j ∈ new → alookup j st'.mgr = some id) ∧
+        (j ∉ new → j ∈ old → alookup j st'.mgr = none) ∧
+        (j ∉ new → j ∉ old → alookup j st'.mgr = alookup j st0.mgr) := by
+      intro j
+      obtain ⟨a1, a2⟩ := am j
+      obtain ⟨d1, d2⟩ := dm j
+      refine ⟨fun hjn => ?_, fun hjn hjo => ?_, fun hjn hjo => ?_⟩
+      · by_cases hjo : j ∈ old
+        · have hnA : ¬ ∃ n ∈ new, memb n old = false ∧ env.lower n = j := by
+            intro hc
+            obtain ⟨n, hn, hmo, hln⟩ := hc
+            rw [hfn n hn] at hln; subst hln
+            exact (memb_false_iff _ _).1 hmo hjo
+          have hnD : ¬ ((∃ o ∈ old.filter fun o => !memb o new, env.lower o = j) ∧ Owned st1 X j) := by
+            intro hc
+            obtain ⟨⟨o, ho, hlo⟩, _⟩ := hc
+            rw [List.mem_filter] at ho
+            rw [hfo o ho.1] at hlo; subst hlo
+            have : memb o new = false := by simpa using ho.2
+            exact (memb_false_iff _ _).1 this hjn
+          rw [a2 hnA, d2 hnD, hmgr]
+          exact (hold j).2 hjo
+        · exact a1 ⟨j, hjn, (memb_false_iff _ _).2 hjo, hfn j hjn⟩
+      · have hnA : ¬ ∃ n ∈ new, memb n old = false ∧ env.lower n = j := by
+          intro hc
+          obtain ⟨n, hn, _, hln⟩ := hc
+          rw [hfn n hn] at hln; subst hln
+          exact hjn hn
+        rw [a2 hnA]
+        apply d1
+        refine ⟨⟨j, ?_, hfo j hjo⟩, hown j hjo⟩
+        rw [List.mem_filter]
+        exact ⟨hjo, by simp [(memb_false_iff _ _).2 hjn]⟩
+      · have hnA : ¬ ∃ n ∈ new, memb n old = false ∧ env.lower n = j := by
+          intro hc
+          obtain ⟨n, hn, _, hln⟩ := hc
+          rw [hfn n hn] at hln; subst hln
+          exact hjn hn
+        have hnD : ¬ ((∃ o ∈ old.filter fun o => !memb o new, env.lower o = j) ∧ Owned st1 X j) := by
+          intro hc
+          obtain ⟨⟨o, ho, hlo⟩, _⟩ := hc
+          rw [List.mem_filter] at ho
+          rw [hfo o ho.1] at hlo; subst hlo
+          exact hjo ho.1
+        rw [a2 hnA, d2 hnD, hmgr]
+    -- a key of the new map that does not point to `id` is an untouched key of the old map
+    have hother : ∀ k id', alookup k st'.mgr = some id' → id' ≠ id →
+        k ∉ new ∧ k ∉ old ∧ alookup k st0.mgr = some id' ∧ st'.heap[id']? = st0.heap[id']? := by
+      intro k id' hk hid
+      obtain ⟨k1, k2, k3⟩ := KC k
+      have hkn : k ∉ new := fun hc => by rw [k1 hc] at hk; injection hk with hk; exact hid hk.symm
+      have hko : k ∉ old := fun hc => by rw [k2 hkn hc] at hk; cases hk
+      rw [k3 hkn hko] at hk
+      exact ⟨hkn, hko, hk, by rw [hheap', hheap_other id' hid]⟩
+    have hheapid : st'.heap[id]? = some info' := by rw [hheap']; exact hheap_id
+    refine ⟨⟨?_, ?_, ?_, ?_⟩, al.trans (dl.trans hlis), aq.trans (dq.trans hq), ?_, ?_, ?_⟩
+    · -- heapOK
+      intro id' ci hci
+      by_cases hid : id' = id
+      · subst hid
+        rw [hheapid] at hci; injection hci with hci; subst hci
+        exact ⟨hinv, hfixC, hconn⟩
+      · rw [hheap', hheap_other id' hid] at hci
+        exact hI.heapOK id' ci hci
+    · -- keysSub
+      intro k id' hk
+      by_cases hid : id' = id
+      · subst hid
+        refine ⟨info', hheapid, ?_⟩
+        rw [hnew]
+        apply Classical.byContradiction
+        intro hkn
+        obtain ⟨_, k2, k3⟩ := KC k
+        by_cases hko : k ∈ old
+        · rw [k2 hkn hko] at hk; cases hk
+        · rw [k3 hkn hko] at hk
+          exact hko ((hold k).1 hk)
+      · obtain ⟨_, _, hk0, hh⟩ := hother k id' hk hid
+        obtain ⟨ci, hci, hmem⟩ := hI.keysSub k id' hk0
+        exact ⟨ci, by rw [hh]; exact hci, hmem⟩
+    · -- namesKeys
+      intro k id' ci hk hci s hs
+      by_cases hid : id' = id
+      · subst hid
+        rw [hheapid] at hci; injection hci with hci; subst hci
+        rw [hnew] at hs
+        exact (KC s).1 hs
+      · obtain ⟨_, _, hk0, hh⟩ := hother k id' hk hid
+        rw [hh] at hci
+        have hs0 := hI.namesKeys k id' ci hk0 hci s hs
+        obtain ⟨_, _, k3⟩ := KC s
+        have hso : s ∉ old := fun hc => by
+          have := (hold s).2 hc
+          rw [this] at hs0; injection hs0 with hs0; exact hid hs0.symm
+        have hsn : s ∉ new := fun hc => by
+          have hr : resolves st1 s = some (id', ci) := by
+            rw [resolves_some, hmgr, hheap_other id' hid]; exact ⟨hs0, hci⟩
+          have hcX := hnc s hc id' ci hr
+          have hr0 : resolves st0 s = some (id', ci) := by rw [resolves_some]; exact ⟨hs0, hci⟩
+          exact hid (hU s id' ci hr0 hcX)
+        rw [k3 hsn hso]; exact hs0
+    · -- listerOK
+      intro n o hn
+      rw [al.trans (dl.trans hlis)] at hn
+      exact hI.listerOK n o hn
+    · -- F1
+      intro k id' ci hr hcX
+      rw [resolves_some] at hr
+      have hid : id' ≠ id := fun hc => by subst hc; exact hcX (hV ci hr.2)
+      obtain ⟨_, _, k3⟩ := KC k
+      have hko : k ∉ old := fun hc => by
+        have := (hold k).2 hc
+        rw [this] at hr; injection hr.1 with hr1; exact hid hr1.symm
+      have hkn : k ∉ new := fun hc => by
+        have hr1 : resolves st1 k = some (id', ci) := by
+          rw [resolves_some, hmgr, hheap_other id' hid]; exact hr
+        exact hcX (hnc k hc id' ci hr1)
+      rw [resolves_some, k3 hkn hko, hheap', hheap_other id' hid]
+      exact hr
+    · -- F2
+      intro k id' ci hr hcX
+      rw [resolves_some] at hr
+      have hid : id' ≠ id := fun hc => by
+        subst hc
+        rw [hheapid] at hr; injection hr.2 with hr2; subst hr2
+        exact hcX hcl
+      obtain ⟨_, _, hk0, hh⟩ := hother k id' hr.1 hid
+      rw [resolves_some]
+      exact ⟨hk0, by rw [← hh]; exact hr.2⟩
+    · rw [resolves_some]
+      exact ⟨(KC X).1 hXnew, hheapid⟩
+
+theorem heap_set_get {heap : List CI} {id : Nat} {info info' : CI} (h : heap[id]? = some info) (id' : Nat) :
+    (heap.set id info')[id']? = if id' = id then some info' else heap[id']? := by
+  have hlt : id < heap.length := by
+    obtain ⟨hlt, _⟩ := List.getElem?_eq_some_iff.1 h
+    exact hlt
+  rw [List.getElem?_set]
+  by_cases hi : id = id'
+  · subst hi; simp [hlt]
+  · have : ¬ id' = id := fun x => hi x.symm
+    rw [if_neg hi, if_neg this]
+
+theorem heap_append_get (heap : List CI) (info : CI) (id' : Nat) :
+    (heap ++ [info])[id']? = if id' = heap.length then some info else heap[id']? := by
+  rw [List.getElem?_append]
+  by_cases hlt : id' < heap.length
+  · have : ¬ id' = heap.length := by omega
+    rw [if_pos hlt, if_neg this]
+  · rw [if_neg hlt]
+    by_cases he : id' = heap.length
+    · subst he; simp
+    · rw [if_neg he]
+      have h1 : heap.length ≤ id' := by omega
+      rw [List.getElem?_eq_none h1]
+      have : 1 ≤ id' - heap.length := by omega
+      exact List.getElem?_eq_none (by simpa using this)
+
+/-- replacing `ClusterInfo` number `id` by a state of the same cluster that reports the same server names
+    (a failed `Sync`, or a successful one that did not change the names) keeps the invariant -/
+theorem heapset_spec {env : Env} {conn : Conn} {st : Ctl} {id : Nat} {info info' : CI} (hI : CInv env conn st)
+    (hid : st.heap[id]? = some info) (hcl : info'.cluster = info.cluster)
+    (hnames : loadServerNames env info' = loadServerNames env info) (hinv : Inv env info') (hconn : info'.conn = conn) :
+    CInv env conn { st with heap := st.heap.set id info' } ∧
+    F1 st { st with heap := st.heap.set id info' } info.cluster ∧
+    F2 st { st with heap := st.heap.set id info' } info.cluster ∧
+    ∀ k, resolves st k = some (id, info) → resolves { st with heap := st.heap.set id info' } k = some (id, info') := by
+  have hget := heap_set_get (info' := info') hid
+  refine ⟨⟨?_, ?_, ?_, hI.listerOK⟩, ?_, ?_, ?_⟩
+  · intro id' ci hci
+    simp only [hget] at hci
+    by_cases he : id' = id
+    · rw [if_pos he] at hci; injection hci with hci; subst hci
+      exact ⟨hinv, by rw [hcl]; exact (hI.heapOK id info hid).2.1, hconn⟩
+    · rw [if_neg he] at hci; exact hI.heapOK id' ci hci
+  · intro k id' hk
+    obtain ⟨ci, hci, hmem⟩ := hI.keysSub k id' hk
+    simp only [hget]
+    by_cases he : id' = id
+    · subst he
+      rw [hid] at hci; injection hci with hci; subst hci
+      exact ⟨info', by rw [if_pos rfl], by rw [hnames]; exact hmem⟩
+    · exact ⟨ci, by rw [if_neg he]; exact hci, hmem⟩
+  · intro k id' ci hk hci s hs
+    simp only [hget] at hci
+    by_cases he : id' = id
+    · subst he
+      rw [if_pos rfl] at hci; injection hci with hci; subst hci
+      rw [hnames] at hs
+      exact hI.namesKeys k id' info hk hid s hs
+    · rw [if_neg he] at hci
+      exact hI.namesKeys k id' ci hk hci s hs
+  · intro k id' ci hr hcX
+    rw [resolves_some] at hr ⊢
+    have he : id' ≠ id := fun hc => by subst hc; rw [hid] at hr; injection hr.2 with h2; subst h2; exact hcX rfl
+    simp only [hget, if_neg he]
+    exact hr
+  · intro k id' ci hr hcX
+    rw [resolves_some] at hr ⊢
+    simp only [hget] at hr
+    have he : id' ≠ id := fun hc => by
+      subst hc; rw [if_pos rfl] at hr; injection hr.2 with h2; subst h2; exact hcX hcl
+    rw [if_neg he] at hr
+    exact hr
+  · intro k hr
+    rw [resolves_some] at hr ⊢
+    refine ⟨hr.1, ?_⟩
+    show (st.heap.set id info')[id]? = some info'
+    rw [hget, if_pos rfl]
+
+/-- `DeleteForServerNames` -/
+theorem deleteForServerNames_spec {env : Env} {conn : Conn} (hl : LowerIdem env) {st : Ctl} {X : Str}
+    (hI : CInv env conn st) (hX : env.lower X = X) :
+    CInv env conn (deleteForServerNames env st X) ∧ (deleteForServerNames env st X).lister = st.lister ∧
+    (deleteForServerNames env st X).queue = st.queue ∧
+    F1 st (deleteForServerNames env st X) X ∧ F2 st (deleteForServerNames env st X) X ∧
+    ∀ (id : Nat) (ci : CI), resolves (deleteForServerNames env st X) X = some (id, ci) → ci.cluster ≠ X := by
+  have hD : deleteForServerNames env st X = (match resolves st X with
+      | none => st
+      | some (_, info) => (loadServerNames env info).foldl (delOwned env X) st) := by
+    unfold deleteForServerNames; rw [get_eq, hX]
+    cases resolves st X with
+    | none => rfl
+    | some p => rfl
+  rw [hD]
+  cases hr : resolves st X with
+  | none =>
+    dsimp only
+    refine ⟨hI, rfl, rfl, fun k id ci h _ => h, fun k id ci h _ => h, fun id ci h => ?_⟩
+    rw [hr] at h; cases h
+  | some p =>
+    obtain ⟨id0, info⟩ := p
+    dsimp only
+    obtain ⟨dh, dl, dq, dm⟩ := delFold_spec env X (loadServerNames env info) st
+    generalize (loadServerNames env info).foldl (delOwned env X) st = st' at dh dl dq dm
+    have hr0 := resolves_some.1 hr
+    -- a key is either untouched, or it pointed to a ClusterInfo of cluster X and is gone
+    have hkey : ∀ j, alookup j st'.mgr = alookup j st.mgr ∨ (alookup j st'.mgr = none ∧ Owned st X j) := by
+      intro j
+      obtain ⟨d1, d2⟩ := dm j
+      by_cases hc : (∃ o ∈ loadServerNames env info, env.lower o = j) ∧ Owned st X j
+      · exact Or.inr ⟨d1 hc, hc.2⟩
+      · exact Or.inl (d2 hc)
+    have hsub : ∀ j id, alookup j st'.mgr = some id → alookup j st.mgr = some id := by
+      intro j id hj
+      cases hkey j with
+      | inl h => rw [← h]; exact hj
+      | inr h => rw [h.1] at hj; cases hj
+    refine ⟨⟨?_, ?_, ?_, ?_⟩, dl, dq, ?_, ?_, ?_⟩
+    · intro id ci hci; rw [dh] at hci; exact hI.heapOK id ci hci
+    · intro k id hk
+      obtain ⟨ci, hci, hmem⟩ := hI.keysSub k id (hsub k id hk)
+      exact ⟨ci, by rw [dh]; exact hci, hmem⟩
+    · intro k id ci hk hci s hs
+      rw [dh] at hci
+      have hk0 := hsub k id hk
+      have hs0 := hI.namesKeys k id ci hk0 hci s hs
+      cases hkey s with
+      | inl h => rw [h]; exact hs0
+      | inr h =>
+        -- `s` was removed: then `id` is the ClusterInfo of cluster X whose names were walked, and `k` is gone too
+        exfalso
+        obtain ⟨_, id2, c2, hr2, hc2⟩ := h
+        have hr2' := resolves_some.1 hr2
+        rw [hs0] at hr2'; injection hr2'.1 with hid2; subst hid2
+        rw [hci] at hr2'; injection hr2'.2 with hci2; subst hci2
+        -- the walked ClusterInfo is this one
+        have hXk : alookup X st.mgr = some id := by
+          have := hI.namesKeys k id ci hk0 hci ci.cluster (cluster_mem_names env ci)
+          rw [hc2] at this; exact this
+        rw [hXk] at hr0; injection hr0.1 with hid0; subst hid0
+        rw [hci] at hr0; injection hr0.2 with hinfo; subst hinfo
+        obtain ⟨ci'', hci'', hkmem'⟩ := hI.keysSub k id hk0
+        rw [hci] at hci''; injection hci'' with hci''; subst hci''
+        have hfixk : env.lower k = k := names_fixed hl (hI.heapOK id ci hci).2.1 k hkmem'
+        obtain ⟨d1, _⟩ := dm k
+        have : alookup k st'.mgr = none := d1 ⟨⟨k, hkmem', hfixk⟩, id, ci, resolves_some.2 ⟨hk0, hci⟩, hc2⟩
+        rw [this] at hk; cases hk
+    · intro n o hn; rw [dl] at hn; exact hI.listerOK n o hn
+    · intro k id ci hrk hcX
+      rw [resolves_some] at hrk ⊢
+      rw [dh]
+      cases hkey k with
+      | inl h => rw [h]; exact hrk
+      | inr h =>
+        exfalso
+        obtain ⟨_, id2, c2, hr2, hc2⟩ := h
+        rw [resolves_some] at hr2
+        rw [hrk.1] at hr2; injection hr2.1 with e; subst e
+        rw [hrk.2] at hr2; injection hr2.2 with e; subst e
+        exact hcX hc2
+    · intro k id ci hrk _
+      rw [resolves_some] at hrk ⊢
+      rw [dh] at hrk
+      exact ⟨hsub k id hrk.1, hrk.2⟩
+    · intro id ci hrk hcX
+      rw [resolves_some] at hrk
+      rw [dh] at hrk
+      have hk0 := hsub X id hrk.1
+      rw [hk0] at hr0; injection hr0.1 with e; subst e
+      rw [hrk.2] at hr0; injection hr0.2 with e; subst e
+      obtain ⟨d1, _⟩ := dm X
+      have : alookup X st'.mgr = none := by
+        apply d1
+        refine ⟨⟨X, ?_, hX⟩, id, ci, resolves_some.2 ⟨hk0, hrk.2⟩, hcX⟩
+        rw [← hcX]; exact cluster_mem_names env ci
+      rw [this] at hrk; cases hrk.1
+
+/-! ## the controller: the sync handler -/
+
+/-- cluster `n` is settled: what is served under its name is exactly what the lister's current object prescribes,
+    or nothing of this cluster is served when the object is gone -/
+def SettledAt (env : Env) (conn : Conn) (st : Ctl) (n : Str) : Prop :=
+  match alookup n st.lister with
+  | none => ∀ (id : Nat) (ci : CI), resolves st n = some (id, ci) → ci.cluster ≠ n
+  | some o => ∃ id ci, resolves st n = some (id, ci) ∧ ci.cluster = n ∧ observe env ci = expected env conn o ∧
+      ∀ ord', ∃ f, fresh env conn o ord' = .ok f ∧ observe env f = observe env ci
+
+def Post (env : Env) (conn : Conn) (st st' : Ctl) (X : Str) : Prop :=
+  CInv env conn st' ∧ st'.lister = st.lister ∧ st'.queue = st.queue ∧ F1 st st' X ∧ F2 st st' X
+
+theorem Post_refl {env : Env} {conn : Conn} {st : Ctl} (hI : CInv env conn st) (X : Str) : Post env conn st st X :=
+  ⟨hI, rfl, rfl, fun _ _ _ h _ => h, fun _ _ _ h _ => h⟩
+
+theorem loadServerNames_congr (env : Env) {a b : CI} (h1 : a.cluster = b.cluster) (h2 : a.ss = b.ss) :
+    loadServerNames env a = loadServerNames env b := by
+  unfold loadServerNames loadSS; rw [h1, h2]
+
+/-- passing the conflict pre-check means that what is served under the cluster's own name is this cluster -/
+theorem conflict_own {env : Env} {st : Ctl} {cluster : Obj} {id : Nat} {info : CI}
+    (hc : checkUpstreamServerNameConflict env st cluster = false)
+    (hg : st.get env (env.lower cluster.name) = some (id, info)) : info.cluster = env.lower cluster.name := by
+  unfold checkUpstreamServerNameConflict at hc
+  simp only [hg] at hc
+  unfold checkServerNameConflict at hc
+  by_cases he : loadServerNames env info = env.lower cluster.name :: cluster.secureServing.serverNames.map env.lower
+  · unfold loadServerNames at he
+    injection he
+  · rw [if_neg he] at hc
+    by_cases ha : ((env.lower cluster.name :: cluster.secureServing.serverNames.map env.lower).any
+        fun n => st.ownedByOther env (env.lower cluster.name) n) = true
+    · rw [if_pos ha] at hc; cases hc
+    · have ha' : ((env.lower cluster.name :: cluster.secureServing.serverNames.map env.lower).any
+          fun n => st.ownedByOther env (env.lower cluster.name) n) = false := by simpa using ha
+      rw [List.any_eq_false] at ha'
+      have := ha' (env.lower cluster.name) List.mem_cons_self
+      unfold Ctl.ownedByOther at this
+      rw [hg] at this
+      simpa using this
+
+theorem ownedByOther_set {env : Env} {st : Ctl} {id : Nat} {info info' : CI} (hid : st.heap[id]? = some info)
+    (hcl : info'.cluster = info.cluster) (X n : Str) :
+    Ctl.ownedByOther env { st with heap := st.heap.set id info' } X n = Ctl.ownedByOther env st X n := by
+  unfold Ctl.ownedByOther
+  rw [get_eq, get_eq]
+  unfold resolves
+  simp only
+  cases hk : alookup (env.lower n) st.mgr with
+  | none => rfl
+  | some id' =>
+    simp only
+    rw [heap_set_get hid]
+    by_cases he : id' = id
+    · subst he
+      rw [if_pos rfl, hid]
+      simp only [hcl]
+    · rw [if_neg he]
+
+theorem check_set {env : Env} {st : Ctl} {id : Nat} {info info' : CI} (hid : st.heap[id]? = some info)
+    (hcl : info'.cluster = info.cluster) (X : Str) (old new : List Str) :
+    checkServerNameConflict env { st with heap := st.heap.set id info' } X old new =
+    checkServerNameConflict env st X old new := by
+  unfold checkServerNameConflict
+  have : (fun n => Ctl.ownedByOther env { st with heap := st.heap.set id info' } X n) =
+      (fun n => Ctl.ownedByOther env st X n) := funext (ownedByOther_set hid hcl X)
+  rw [this]
+  have h2 : (fun o => !memb o new && Ctl.ownedByOther env { st with heap := st.heap.set id info' } X o) =
+      (fun o => !memb o new && Ctl.ownedByOther env st X o) := by
+    funext o; rw [ownedByOther_set hid hcl X o]
+  rw [h2]
+
+/-- **the sync handler** (`syncUpstreamCluster` for a queue item naming cluster `X`): unless the process panics,
+    it keeps the controller's invariant, does not touch what other clusters' keys point to, and — when it does not ask
+    for a requeue — leaves cluster `X` settled on the lister's CURRENT object -/
+theorem handler_spec {env : Env} {conn : Conn} (hl : LowerIdem env) {st : Ctl} {X : Str} (ord : List Str)
+    (hI : CInv env conn st) (hX : env.lower X = X) :
+    match syncUpstreamCluster env conn st X ord with
+    | .crash => True
+    | .requeue st' => Post env conn st st' X
+    | .done st' => Post env conn st st' X ∧ SettledAt env conn st' X := by
+  unfold syncUpstreamCluster
+  simp only
+  rw [hX]
+  cases hlis : alookup X st.lister with
+  | none =>
+    dsimp only
+    obtain ⟨d1, d2, d3, d4, d5, d6⟩ := deleteForServerNames_spec hl hI hX
+    refine ⟨⟨d1, d2, d3, d4, d5⟩, ?_⟩
+    unfold SettledAt
+    rw [d2, hlis]
+    exact d6
+  | some cluster =>
+    dsimp only
+    have hname : cluster.name = X := hI.listerOK X cluster hlis
+    by_cases hcf : checkUpstreamServerNameConflict env st cluster = true
+    · rw [if_pos hcf]; exact Post_refl hI X
+    · have hcf' : checkUpstreamServerNameConflict env st cluster = false := by simpa using hcf
+      rw [if_neg hcf]
+      cases hg : st.get env X with
+      | none =>
+        dsimp only
+        have hg' : resolves st X = none := by rw [get_eq, hX] at hg; exact hg
+        cases hf : fresh env conn cluster ord with
+        | crash => trivial
+        | fail e c => exact Post_refl hI X
+        | ok info =>
+          dsimp only
+          have hfr : sync env (empty env conn cluster.name) cluster ord = .ok info := hf
+          obtain ⟨hinv, hcl, hconn, hobs, _, _, _⟩ := sync_ok_spec (empty_inv env conn cluster.name) hfr rfl
+          have hfre : ∀ ord', ∃ f, fresh env conn cluster ord' = .ok f ∧ observe env f = observe env info :=
+            fresh_of_sync_ok (empty_inv env conn cluster.name) hfr rfl
+          have hcl' : info.cluster = X := by rw [hcl]; show env.lower cluster.name = X; rw [hname, hX]
+          have hconn' : info.conn = conn := hconn
+          have hobs' : observe env info = expected env conn cluster := hobs
+          cases ha : addOrUpdateForServerNames env { st with heap := st.heap ++ [info] } [] st.heap.length info with
+          | none => exact Post_refl hI X
+          | some st2 =>
+            dsimp only
+            have hnone : ∀ ci, st.heap[st.heap.length]? = some ci → False := by
+              intro ci h; rw [List.getElem?_eq_none (Nat.le_refl _)] at h; cases h
+            have hnoX : ∀ k id' c, resolves st k = some (id', c) → c.cluster = X → False := by
+              intro k id' c hr hc
+              rw [resolves_some] at hr
+              have := hI.namesKeys k id' c hr.1 hr.2 c.cluster (cluster_mem_names env c)
+              rw [hc] at this
+              have hr' : resolves st X = some (id', c) := resolves_some.2 ⟨this, hr.2⟩
+              rw [hg'] at hr'; cases hr'
+            obtain ⟨r1, r2, r3, r4, r5, r6⟩ := rekey_spec (conn := conn) hl (st0 := st)
+              (st1 := { st with heap := st.heap ++ [info] }) (id := st.heap.length) (info' := info) (X := X) (old := [])
+              hI rfl rfl rfl
+              (by show (st.heap ++ [info])[st.heap.length]? = some info; rw [heap_append_get, if_pos rfl])
+              (by intro id' hne; show (st.heap ++ [info])[id']? = st.heap[id']?; rw [heap_append_get, if_neg hne])
+              hX hcl' hinv hconn'
+              (by
+                intro k
+                constructor
+                · intro hk
+                  obtain ⟨ci, hci, _⟩ := hI.keysSub k _ hk
+                  exact (hnone ci hci).elim
+                · intro hk; cases hk)
+              (fun ci h => (hnone ci h).elim)
+              (fun k id' c hr hc => (hnoX k id' c hr hc).elim)
+              (by unfold loadServerNames; intro hc; cases hc)
+              ha
+            refine ⟨⟨r1, r2, r3, r4, r5⟩, ?_⟩
+            unfold SettledAt
+            rw [r2, hlis]
+            exact ⟨_, _, r6, hcl', hobs', hfre⟩
+      | some p =>
+        obtain ⟨id, info⟩ := p
+        dsimp only
+        have hg' : resolves st X = some (id, info) := by rw [get_eq, hX] at hg; exact hg
+        have hgr := resolves_some.1 hg'
+        have hown : info.cluster = X := by
+          have := conflict_own (id := id) (info := info) hcf' (by rw [hname, hX]; exact hg)
+          rw [this, hname, hX]
+        obtain ⟨hinv0, hfix0, hconn0⟩ := hI.heapOK id info hgr.2
+        have hn : info.cluster = env.lower cluster.name := by rw [hown, hname, hX]
+        cases hs : sync env info cluster ord with
+        | crash => trivial
+        | fail e info' =>
+          dsimp only
+          obtain ⟨hinv', hcl', hconn', hss'⟩ := sync_fail_spec hinv0 hs
+          obtain ⟨c1, c2, c3, _⟩ := heapset_spec (env := env) (conn := conn) hI hgr.2 hcl'
+            (loadServerNames_congr env hcl' hss') hinv' (hconn'.trans hconn0)
+          rw [hown] at c2 c3
+          exact ⟨c1, rfl, rfl, c2, c3⟩
+        | ok info' =>
+          dsimp only
+          obtain ⟨hinv', hcl', hconn', hobs', _, _, _⟩ := sync_ok_spec hinv0 hs hn
+          have hfre := fresh_of_sync_ok hinv0 hs hn
+          rw [hconn0] at hobs' hfre
+          have hconn'' : info'.conn = conn := hconn'.trans hconn0
+          have hclX : info'.cluster = X := hcl'.trans hown
+          by_cases heq : loadServerNames env info = loadServerNames env info'
+          · -- the server names did not change
+            have ha : addOrUpdateForServerNames env { st with heap := st.heap.set id info' } (loadServerNames env info) id info' =
+                some { st with heap := st.heap.set id info' } := by
+              unfold addOrUpdateForServerNames
+              simp only
+              rw [if_pos heq]
+            rw [ha]
+            dsimp only
+            obtain ⟨c1, c2, c3, c4⟩ := heapset_spec (env := env) (conn := conn) hI hgr.2 hcl' heq.symm hinv' hconn''
+            rw [hown] at c2 c3
+            refine ⟨⟨c1, rfl, rfl, c2, c3⟩, ?_⟩
+            unfold SettledAt
+            show (match alookup X st.lister with
+              | none => _
+              | some o => _)
+            rw [hlis]
+            exact ⟨id, info', c4 X hg', hclX, hobs', hfre⟩
+          · -- the server names changed: the pre-check already passed for exactly these names
+            have hnew : loadServerNames env info' = X :: cluster.secureServing.serverNames.map env.lower := by
+              have := congrArg Obs.serverNames hobs'
+              simp only [observe, expected] at this
+              rw [this, hname, hX]
+            have hpre : checkServerNameConflict env st X (loadServerNames env info) (loadServerNames env info') = false := by
+              have := hcf'
+              unfold checkUpstreamServerNameConflict at this
+              rw [hname, hX] at this
+              simp only [hg] at this
+              rw [hnew]; exact this
+            cases ha : addOrUpdateForServerNames env { st with heap := st.heap.set id info' } (loadServerNames env info) id info' with
+            | none =>
+              exfalso
+              unfold addOrUpdateForServerNames at ha
+              simp only at ha
+              rw [if_neg heq, hclX, check_set hgr.2 hcl', hpre] at ha
+              simp at ha
+            | some st2 =>
+              dsimp only
+              obtain ⟨r1, r2, r3, r4, r5, r6⟩ := rekey_spec (conn := conn) hl (st0 := st)
+                (st1 := { st with heap := st.heap.set id info' }) (id := id) (info' := info') (X := X)
+                (old := loadServerNames env info) hI rfl rfl rfl
+                (by show (st.heap.set id info')[id]? = some info'; rw [heap_set_get hgr.2, if_pos rfl])
+                (by intro id' hne; show (st.heap.set id info')[id']? = st.heap[id']?; rw [heap_set_get hgr.2, if_neg hne])
+                hX hclX hinv' hconn''
+                (by
+                  intro k
+                  constructor
+                  · intro hk
+                    obtain ⟨ci, hci, hmem⟩ := hI.keysSub k id hk
+                    rw [hgr.2] at hci; injection hci with hci; subst hci
+                    exact hmem
+                  · intro hk
+                    exact hI.namesKeys X id info hgr.1 hgr.2 k hk)
+                (by intro ci hci; rw [hgr.2] at hci; injection hci with hci; subst hci; exact hown)
+                (by
+                  intro k id' c hr hc
+                  exact hI.unique hr hg' (hc.trans hown.symm))
+                heq ha
+              refine ⟨⟨r1, r2, r3, r4, r5⟩, ?_⟩
+              unfold SettledAt
+              rw [r2, hlis]
+              exact ⟨_, _, r6, hclX, hobs', hfre⟩
+
+/-! ## the controller: every sequence of writes, deletes and deliveries -/
+
+/-- object names are DNS subdomains (`ValidateObjectMeta`): lower case -/
+def ValidOp (env : Env) : COp → Prop
+  | .write o => env.lower o.name = o.name
+  | .delete n => env.lower n = n
+  | .deliver _ _ => True
+
+/-- what holds after every sequence of ops: the controller's invariant, and every cluster either has a queue item
+    pending or is settled on the lister's current object -/
+structure AllInv (env : Env) (conn : Conn) (st : Ctl) : Prop where
+  cinv : CInv env conn st
+  qfix : ∀ n ∈ st.queue, env.lower n = n
+  settled : ∀ n, env.lower n = n → n ∈ st.queue ∨ SettledAt env conn st n
+
+theorem AllInv_init (env : Env) (conn : Conn) : AllInv env conn Ctl.init := by
+  refine ⟨CInv_init env conn, fun n h => (by cases h), fun n _ => Or.inr ?_⟩
+  unfold SettledAt
+  simp only [Ctl.init, alookup]
+  intro id ci h
+  simp [resolves, alookup] at h
+
+theorem SettledAt_frame {env : Env} {conn : Conn} {st st' : Ctl} {X m : Str} (hm : m ≠ X)
+    (hlis : alookup m st'.lister = alookup m st.lister) (h1 : F1 st st' X) (h2 : F2 st st' X)
+    (h : SettledAt env conn st m) : SettledAt env conn st' m := by
+  unfold SettledAt at h ⊢
+  rw [hlis]
+  cases hl : alookup m st.lister with
+  | none =>
+    rw [hl] at h
+    intro id ci hr hc
+    exact h id ci (h2 m id ci hr (by rw [hc]; exact hm)) hc
+  | some o =>
+    rw [hl] at h
+    obtain ⟨id, ci, hr, hc, hrest⟩ := h
+    exact ⟨id, ci, h1 m id ci hr (by rw [hc]; exact hm), hc, hrest⟩
+
+theorem mem_removeAt {l : List Str} {i : Nat} {x m : Str} (hi : l[i]? = some x) (hx : m ≠ x) (hm : m ∈ l) :
+    m ∈ removeAt l i := by
+  unfold removeAt
+  obtain ⟨j, hj⟩ := List.mem_iff_getElem?.1 hm
+  rw [List.mem_append]
+  by_cases hlt : j < i
+  · left
+    apply List.mem_iff_getElem?.2
+    exact ⟨j, by rw [List.getElem?_take]; simp [hlt, hj]⟩
+  · have hne : j ≠ i := fun hc => by subst hc; rw [hi] at hj; injection hj with hj; exact hx hj.symm
+    right
+    apply List.mem_iff_getElem?.2
+    refine ⟨j - (i + 1), ?_⟩
+    rw [List.getElem?_drop]
+    have : i + 1 + (j - (i + 1)) = j := by omega
+    rw [this]; exact hj
+
+theorem mem_of_mem_removeAt {l : List Str} {i : Nat} {m : Str} (hm : m ∈ removeAt l i) : m ∈ l := by
+  unfold removeAt at hm
+  rw [List.mem_append] at hm
+  cases hm with
+  | inl h => exact List.mem_of_mem_take h
+  | inr h => exact List.mem_of_mem_drop h
+
+theorem step_inv {env : Env} {conn : Conn} (hl : LowerIdem env) {st st' : Ctl} {op : COp}
+    (h : AllInv env conn st) (hv : ValidOp env op) (hs : st.step env conn op = some st') : AllInv env conn st' := by
+  obtain ⟨hc, hq, hset⟩ := h
+  cases op with
+  | write o =>
+    simp only [Ctl.step] at hs
+    injection hs with hs; subst hs
+    have hvo : env.lower o.name = o.name := hv
+    refine ⟨⟨hc.heapOK, hc.keysSub, hc.namesKeys, ?_⟩, ?_, ?_⟩
+    · intro n o' hn
+      simp only [alookup_astore] at hn
+      by_cases he : o.name = n
+      · rw [if_pos he] at hn; injection hn with hn; subst hn; exact he
+      · rw [if_neg he] at hn; exact hc.listerOK n o' hn
+    · intro n hn
+      simp only [List.mem_append, List.mem_singleton] at hn
+      cases hn with
+      | inl h' => exact hq n h'
+      | inr h' => rw [h']; exact hvo
+    · intro n hn
+      by_cases he : o.name = n
+      · left; simp [he]
+      · cases hset n hn with
+        | inl h' => left; simp [h']
+        | inr h' =>
+          right
+          unfold SettledAt at h' ⊢
+          simp only [alookup_astore, if_neg he]
+          exact h'
+  | delete name =>
+    simp only [Ctl.step] at hs
+    injection hs with hs; subst hs
+    have hvo : env.lower name = name := hv
+    refine ⟨⟨hc.heapOK, hc.keysSub, hc.namesKeys, ?_⟩, ?_, ?_⟩
+    · intro n o' hn
+      simp only [alookup_aerase] at hn
+      by_cases he : name = n
+      · rw [if_pos he] at hn; cases hn
+      · rw [if_neg he] at hn; exact hc.listerOK n o' hn
+    · intro n hn
+      simp only [List.mem_append, List.mem_singleton] at hn
+      cases hn with
+      | inl h' => exact hq n h'
+      | inr h' => rw [h']; exact hvo
+    · intro n hn
+      by_cases he : name = n
+      · left; simp [he]
+      · cases hset n hn with
+        | inl h' => left; simp [h']
+        | inr h' =>
+          right
+          unfold SettledAt at h' ⊢
+          simp only [alookup_aerase, if_neg he]
+          exact h'
+  | deliver i ord =>
+    simp only [Ctl.step] at hs
+    cases hqi : st.queue[i]? with
+    | none => rw [hqi] at hs; injection hs with hs; subst hs; exact ⟨hc, hq, hset⟩
+    | some X =>
+      rw [hqi] at hs
+      simp only at hs
+      have hXq : X ∈ st.queue := List.mem_iff_getElem?.2 ⟨i, hqi⟩
+      have hX : env.lower X = X := hq X hXq
+      have hh := handler_spec (conn := conn) hl ord hc hX
+      cases hr : syncUpstreamCluster env conn st X ord with
+      | crash => rw [hr] at hs; cases hs
+      | requeue st1 =>
+        rw [hr] at hs hh
+        simp only at hs hh
+        injection hs with hs; subst hs
+        obtain ⟨p1, p2, p3, p4, p5⟩ := hh
+        refine ⟨p1, by rw [p3]; exact hq, ?_⟩
+        intro n hn
+        by_cases he : n = X
+        · left; rw [p3, he]; exact hXq
+        · cases hset n hn with
+          | inl h' => left; rw [p3]; exact h'
+          | inr h' => right; exact SettledAt_frame he (by rw [p2]) p4 p5 h'
+      | done st1 =>
+        rw [hr] at hs hh
+        simp only at hs hh
+        injection hs with hs; subst hs
+        obtain ⟨⟨p1, p2, p3, p4, p5⟩, p6⟩ := hh
+        have hqi1 : st1.queue[i]? = some X := by rw [p3]; exact hqi
+        refine ⟨⟨p1.heapOK, p1.keysSub, p1.namesKeys, p1.listerOK⟩, ?_, ?_⟩
+        · intro n hn
+          have := mem_of_mem_removeAt hn
+          rw [p3] at this; exact hq n this
+        · intro n hn
+          by_cases he : n = X
+          · right
+            subst he
+            exact p6
+          · cases hset n hn with
+            | inl h' =>
+              left
+              exact mem_removeAt hqi1 he (by rw [p3]; exact h')
+            | inr h' =>
+              right
+              exact SettledAt_frame (st' := { st1 with queue := removeAt st1.queue i }) he (by show alookup n st1.lister = _; rw [p2])
+                (fun k id ci hr hc => p4 k id ci hr hc) (fun k id ci hr hc => p5 k id ci hr hc) h'
+
+theorem run_inv {env : Env} {conn : Conn} (hl : LowerIdem env) (ops : List COp) : ∀ (st st' : Ctl),
+    AllInv env conn st → (∀ op ∈ ops, ValidOp env op) → Ctl.run env conn (some st) ops = some st' →
+    AllInv env conn st' := by
+  induction ops with
+  | nil =>
+    intro st st' h _ hr
+    simp only [Ctl.run] at hr; injection hr with hr; subst hr; exact h
+  | cons op r ih =>
+    intro st st' h hv hr
+    simp only [Ctl.run] at hr
+    cases hs : st.step env conn op with
+    | none =>
+      rw [hs] at hr
+      cases r <;> simp [Ctl.run] at hr
+    | some st1 =>
+      rw [hs] at hr
+      exact ih st1 st' (step_inv hl h (hv op List.mem_cons_self) hs) (fun o ho => hv o (List.mem_cons_of_mem _ ho)) hr
+
+/-- the hosts that resolve to a settled cluster are exactly the server names of its latest object -/
+theorem names_of_settled {env : Env} {conn : Conn} {st : Ctl} {n : Str} {o : Obj} (hI : CInv env conn st)
+    (hn : env.lower n = n) (hlis : alookup n st.lister = some o) (hs : SettledAt env conn st n) (h : Str) :
+    (∃ id ci, st.get env h = some (id, ci) ∧ ci.cluster = n) ↔
+    env.lower h ∈ n :: o.secureServing.serverNames.map env.lower := by
+  unfold SettledAt at hs
+  rw [hlis] at hs
+  obtain ⟨id, ci, hr, hc, hobs, _⟩ := hs
+  have hnames : loadServerNames env ci = n :: o.secureServing.serverNames.map env.lower := by
+    have := congrArg Obs.serverNames hobs
+    simp only [observe, expected] at this
+    rw [this, hI.listerOK n o hlis, hn]
+  have hr' := resolves_some.1 hr
+  rw [get_eq]
+  constructor
+  · intro hx
+    obtain ⟨id', ci', hr2, hc2⟩ := hx
+    have hid : id' = id := hI.unique hr2 hr (hc2.trans hc.symm)
+    subst hid
+    have hr2' := resolves_some.1 hr2
+    rw [hr'.2] at hr2'; injection hr2'.2 with e; subst e
+    obtain ⟨ci2, hci2, hmem⟩ := hI.keysSub _ _ hr2'.1
+    rw [hr'.2] at hci2; injection hci2 with e; subst e
+    rw [← hnames]; exact hmem
+  · intro hx
+    rw [← hnames] at hx
+    have := hI.namesKeys n id ci hr'.1 hr'.2 _ hx
+    exact ⟨id, ci, resolves_some.2 ⟨this, hr'.2⟩, hc⟩
+
 end KG.Lemmas.ClusterSync
